@@ -133,7 +133,10 @@ def race(case, res):
                 S.sig("race-timer-fault", call)
             # the requests of one round may carry long ids that differ only at their very end (or only at the very front)
             longids = rng.random() < 0.35
-            stem = "P" * rng.choice([40, 60, 61, 62, 63, 64, 70, 100])
+            stem = "P" * rng.choice([40, 60, 61, 62, 63, 64, 70, 100, 126, 127, 128, 250, 400, 412, 420])
+            # (the longest ones make the request itself nearly as long as a message may be: the answers that carry the id back - the
+            # timeout error, the "owner gone" error - are longer than that)
+            stem = stem[:max(8, (S.max_msg if cal.transport != "ws" else S.max_msg - 14) - 96)]
             for i in range(k):
                 idv = AUTO if rng.random() < 0.85 else None
                 if longids:
